@@ -100,6 +100,9 @@ def describedFns (desc : String) : Option Fns :=
   | ["pg"] => some pgFns
   | ["shared"] => some sharedFns
   | ["trace"] => some (fun o => some (traceFn o))
+  | ["empty"] => some (fun _ => none)
+  | ["nil"] => some (fun _ => none)
+  | ["only", n] => (n.toNat? >>= Op.ofNum).map (fun x => fun o => if o = x then some (traceFn o) else none)
   | ["trace-minus", n] => (n.toNat? >>= Op.ofNum).map (fun x => fun o => if o = x then none else some (traceFn o))
   | ["override", n] => (n.toNat? >>= Op.ofNum).map (fun x => fun o => if o = x then some (traceFn o) else pgFns o)
   | ["fail", n] => (n.toNat? >>= Op.ofNum).map (fun x => fun o => if o = x then some (fun _ _ => .err) else some (traceFn o))
